@@ -85,6 +85,21 @@ ClosureCases ==
   \cup { [t |-> << SFun("outer", <<>>, << SVar("v", Num(1)), SFun("get", <<>>, <<SReturn(Id("v"))>>), SExpr(Asg("v", Num(2))), SReturn(Id("get")) >>),
                    SVar("g", Call(Id("outer"), <<>>)), SPrint(Call(Id("g"), <<>>)), SVar("h", Call(Id("outer"), <<>>)), SPrint(Call(Id("h"), <<>>)),
                    SPrint(Bin("==", Id("g"), Id("g"))) >>, c |-> "closure:late-update", key |-> "closure:late-update"],
+         \* a captured variable is a shared cell: a read, a change made by a sibling closure, and a second read in ONE activation
+         [t |-> << SFun("mk", <<>>, << SVar("n", Num(0)), SFun("inc", <<>>, <<SExpr(Asg("n", Bin("+", Id("n"), Num(1)))), SReturn(Id("n"))>>),
+                                      SFun("twice", <<>>, <<SVar("before", Id("n")), SExpr(Call(Id("inc"), <<>>)), SExpr(Call(Id("inc"), <<>>)), SPrint(Id("n")), SReturn(Bin("-", Id("n"), Id("before")))>>),
+                                      SReturn(Arr(<<Id("inc"), Id("twice")>>)) >>),
+                   SVar("c", Call(Id("mk"), <<>>)), SPrint(Call(Idx(Id("c"), Num(1)), <<>>)), SPrint(Call(Idx(Id("c"), Num(0)), <<>>)), SPrint(Call(Idx(Id("c"), Num(1)), <<>>)),
+                   SVar("g", Num(1)), SFun("setg", <<"v">>, <<SExpr(Asg("g", Id("v")))>>),
+                   SFun("watch", <<>>, << SPrint(Id("g")), SExpr(Call(Id("setg"), <<Num(2)>>)), SPrint(Id("g")), SBlock(<<SPrint(Id("g")), SExpr(Call(Id("setg"), <<Num(3)>>)), SPrint(Id("g"))>>),
+                                         SFor(SVar("i", Num(0)), Bin("<", Id("i"), Num(2)), Asg("i", Bin("+", Id("i"), Num(1))), SBlock(<<SPrint(Id("g")), SExpr(Call(Id("setg"), <<Bin("+", Id("g"), Num(10))>>)), SPrint(Id("g"))>>)) >>),
+                   SExpr(Call(Id("watch"), <<>>)), SPrint(Id("g")) >>,
+          c |-> "closure:read-sibling-write-read", key |-> "closure:read-sibling-write-read"],
+         \* the function's own name inside its body: an assignment to it in one activation is not what another activation sees
+         [t |-> << SFun("f", <<"n">>, << SIf(Bin("==", Id("n"), Num(0)), SBlock(<< SExpr(Asg("f", Num(7))), SPrint(Id("f")), SReturn(Num(0)) >>), None),
+                                        SVar("r", Call(Id("f"), <<Bin("-", Id("n"), Num(1))>>)), SPrint(Bin("==", Id("f"), Num(7))), SReturn(Bin("+", Id("r"), Num(1))) >>),
+                   SPrint(Call(Id("f"), <<Num(2)>>)), SPrint(Call(Id("f"), <<Num(1)>>)) >>,
+          c |-> "closure:own-name-assigned", key |-> "closure:own-name-assigned"],
          [t |-> << SVar("acc", Num(0)), SFun("add", <<"d">>, <<SExpr(Asg("acc", Bin("+", Id("acc"), Id("d")))), SReturn(Id("acc"))>>),
                    SPrint(Call(Id("add"), <<Num(5)>>)), SExpr(Asg("acc", Num(100))), SPrint(Call(Id("add"), <<Num(1)>>)), SPrint(Id("acc")) >>,
           c |-> "closure:global-capture", key |-> "closure:global-capture"],
